@@ -30,7 +30,8 @@ def run_one(args):
             q = subprocess.run([os.path.join(VERIF, "check"), pr], cwd=VERIF, env=env, stdout=subprocess.PIPE,
                                stderr=subprocess.STDOUT, text=True)
             keys = re.findall(r"key=(\S+)", q.stdout)
-            res[pr] = {"exit": q.returncode, "keys": [k for k in keys]}
+            res[pr] = {"exit": q.returncode, "keys": [k for k in keys], "viol": "VIOLATION property=" in q.stdout,
+                       "crash": "Traceback (most recent call last)" in q.stdout}
     finally:
         shutil.rmtree(tmp, ignore_errors=True)
     return (name, res)
@@ -43,7 +44,8 @@ def main():
     dirs = args or sorted(glob.glob(os.path.join(VERIF, "seeded", "*")))
     with concurrent.futures.ThreadPoolExecutor(max_workers=6) as ex:
         for (name, res) in ex.map(run_one, [(d, allp) for d in dirs]):
-            fired = {p: r["keys"] for p, r in res.items() if isinstance(r, dict) and r.get("exit") == 1}
+            fired = {p: r["keys"] for p, r in res.items() if isinstance(r, dict) and r.get("exit") == 1 and r.get("viol")
+                     and r.get("keys") and not r.get("crash")}
             mp = os.path.join(VERIF, "seeded", name, "meta.json")
             if os.path.exists(mp) and "--record" in sys.argv:
                 meta = json.load(open(mp))
